@@ -28,8 +28,15 @@ func metadataLiveness(w *World) {
 	if best <= second {
 		return // tied or losing vote: the guess depends on map order; safety only
 	}
-	honest := w.remotes[len(w.remotes)-1]
-	if honest.closed || honest.exited() {
+	// an honest peer: one that is connected and has announced the true size
+	// (the last such remote; in the worlds with pre-configured peers that is the last remote)
+	var honest *remote
+	for _, r := range w.remotes {
+		if !r.closed && !r.exited() && r.sentExt0 && r.votedSize == trueSize && r.idx != 0 {
+			honest = r
+		}
+	}
+	if honest == nil {
 		return
 	}
 	// the peers asked on each tick are drawn from the torrent's (seeded) PRNG:
